@@ -370,12 +370,79 @@ pub fn check_tz_change(case: &TzCase, obs: &mut Obs) -> CaseResult {
     result
 }
 
+/// The process forks after it has logged (pre-fork servers, daemonising): records of the child carry the child's id.
+#[derive(Serialize, Deserialize, Debug, Clone)]
+pub struct ForkCase {
+    pub pattern: String,
+}
+
+pub fn check_after_fork(case: &ForkCase, obs: &mut Obs) -> CaseResult {
+    let enc = PatternEncoder::new(&case.pattern);
+    let rec = Rec { level: 2, target: "t".into(), msg: vec!["m".into()], module: None, file: None, line: None, mdc: vec![] };
+    let render = |enc: &PatternEncoder| -> String {
+        let (w, _) = encode_with(enc, &rec, vec![]);
+        String::from_utf8_lossy(&w.bytes()).to_string()
+    };
+    let me = std::process::id().to_string();
+    let want_parent = case.pattern.replace("{P}", &me).replace("{pid}", &me).replace("{m}", "m");
+    let got_parent = render(&enc);
+    ensure!(got_parent == want_parent, "C09:output-differs", "pattern {:?} rendered {:?} in process {}", case.pattern, got_parent, me);
+    let mut fds = [0 as libc::c_int; 2];
+    if unsafe { libc::pipe(fds.as_mut_ptr()) } != 0 {
+        return fail("C09:harness", "pipe() failed");
+    }
+    let pid = unsafe { libc::fork() };
+    if pid < 0 {
+        return fail("C09:harness", "fork() failed");
+    }
+    if pid == 0 {
+        // child: encode once more and hand the text to the parent
+        let out = render(&enc);
+        unsafe {
+            libc::write(fds[1], out.as_ptr() as *const libc::c_void, out.len());
+            libc::_exit(0);
+        }
+    }
+    unsafe { libc::close(fds[1]) };
+    let mut buf = vec![0u8; 4096];
+    let mut got = vec![];
+    loop {
+        let n = unsafe { libc::read(fds[0], buf.as_mut_ptr() as *mut libc::c_void, buf.len()) };
+        if n <= 0 {
+            break;
+        }
+        got.extend_from_slice(&buf[..n as usize]);
+    }
+    unsafe {
+        libc::close(fds[0]);
+        let mut st = 0;
+        libc::waitpid(pid, &mut st, 0);
+    }
+    let child = pid.to_string();
+    let want_child = case.pattern.replace("{P}", &child).replace("{pid}", &child).replace("{m}", "m");
+    let got_child = String::from_utf8_lossy(&got).to_string();
+    obs.sub_evals += 2;
+    obs.nontrivial = true;
+    ensure!(
+        got_child == want_child,
+        "C09:pid-after-fork",
+        "pattern {:?}: process {} had encoded a record, then forked; its child {} rendered {:?}, the process id of that process gives {:?}", case.pattern, me, child, got_child, want_child
+    );
+    Ok(())
+}
+
 pub fn run(run: &Run) {
     run.run_replays::<Case>("meaning", &check);
     run.run_replays::<SubCase>("date-subsec", &check_sub);
     let n = run.tier.pick(6_000, 400_000);
     run.search("meaning", n, strategy(0.35), &check);
     run.search("date-subsec", run.tier.pick(500, 20_000), sub_strategy(), &check_sub);
+    run.run_replays::<ForkCase>("after-fork", &check_after_fork);
+    if run.worker.0 == 0 {
+        for p in ["{P}", "{pid}|{P}|{m}", "[{P}] {m}"] {
+            run.eval_one("after-fork", &ForkCase { pattern: p.to_string() }, &check_after_fork);
+        }
+    }
     // last, because it moves the process's zone about (and back): one worker
     run.run_replays::<TzCase>("tz-change", &check_tz_change);
     if run.worker.0 == 0 {
@@ -388,6 +455,7 @@ pub fn replay(part: &str, case: serde_json::Value) -> Option<CaseResult> {
     match part {
         "meaning" => Some(check(&serde_json::from_value(case).ok()?, &mut Obs::default())),
         "date-subsec" => Some(check_sub(&serde_json::from_value(case).ok()?, &mut Obs::default())),
+        "after-fork" => Some(check_after_fork(&serde_json::from_value(case).ok()?, &mut Obs::default())),
         "tz-change" => Some(check_tz_change(&serde_json::from_value(case).ok()?, &mut Obs::default())),
         _ => None,
     }
@@ -396,7 +464,7 @@ pub fn replay(part: &str, case: serde_json::Value) -> Option<CaseResult> {
 pub fn meta() -> EvidenceMeta {
     EvidenceMeta {
         level: "exploration",
-        rule: "cases = patterns generated as an AST over the documented grammar (all formatters and both aliases, literals with doubled/backslash escapes, MDC and date arguments, nesting <=4, optional width specs) printed to a string, x 1-2 generated records (Unicode text, absent optional fields, MDC maps, message delivered in 1-6 pieces), encoded into a capture sink with scripted short writes, on the main or a named thread, under both build profiles; oracle = render(AST, record) computed from the AST (never from re-parsing), equality of whole output, the exact sequence of text pieces and style requests (set before / reset after every highlight group of a coloured level, unaffected by width specs, padding outside), alias-flipped pattern renders identically; sub-second dates: cut out between literal prefix/suffix, parsed back, must lie inside the encode bracket with the requested zone's offset; zone changes: TZ is moved through 2-3 fixed-offset zones while the process runs (1.15 s apart, chrono's own refresh interval) and every local date must carry the offset of the zone in force when it is encoded; non-trivial = AST depth>=2 or escape adjacent to a formatter or absent optional field under a spec or non-ASCII record text or MDC/date argument with escapes; distinct = FNV hash of the case".into(),
+        rule: "cases = patterns generated as an AST over the documented grammar (all formatters and both aliases, literals with doubled/backslash escapes, MDC and date arguments, nesting <=4, optional width specs) printed to a string, x 1-2 generated records (Unicode text, absent optional fields, MDC maps, message delivered in 1-6 pieces), encoded into a capture sink with scripted short writes, on the main or a named thread, under both build profiles; oracle = render(AST, record) computed from the AST (never from re-parsing), equality of whole output, the exact sequence of text pieces and style requests (set before / reset after every highlight group of a coloured level, unaffected by width specs, padding outside), alias-flipped pattern renders identically; sub-second dates: cut out between literal prefix/suffix, parsed back, must lie inside the encode bracket with the requested zone's offset; after-fork: the process encodes {P}/{pid}, forks, and the child's rendering must carry the child's id; zone changes: TZ is moved through 2-3 fixed-offset zones while the process runs (1.15 s apart, chrono's own refresh interval) and every local date must carry the offset of the zone in force when it is encoded; non-trivial = AST depth>=2 or escape adjacent to a formatter or absent optional field under a spec or non-ASCII record text or MDC/date argument with escapes; distinct = FNV hash of the case".into(),
         assumptions: vec![
             "date reference formatting uses chrono itself: checked is that format and zone reach chrono unaltered and the result lands in place".into(),
             "unnamed threads and highlight colours are not asserted (documentation and code disagree; statement requires only unchanged text)".into(),
